@@ -526,7 +526,9 @@ def parseLeader(raw, eols=(CRLF, LF), kind="leader header line", headers=None):
         del raw[:index] # remove used bytes
         if line:
             line = line.decode('iso-8859-1')  # convert to unicode string
-            key, value = line.split(': ', 1)
+            key, sep, value = line.partition(': ')
+            if not sep:  # malformed header line
+                raise HTTPException("Invalid header line '{0}'".format(line))
             headers[key] = value
 
         if len(headers) > MAX_HEADERS:
